@@ -4,19 +4,18 @@ CONSTANTS
   Subs <- S1
   Ids <- I1
   MaxV = 6
-  Programs <- SubCollPrograms
-  SubKinds <- KindsLossy
-  InitStores <- CollStores
+  Programs <- SubValPrograms
+  SubKinds <- Kinds
+  InitStores <- ValStores
   PublishAfterUnlock = FALSE
   CreatedRevalidated = TRUE
   DeleteHoldsLock = TRUE
-  SnapHoldsLock = TRUE
+  SnapHoldsLock = FALSE
   DeleteRechecks = TRUE
   Equiv = "none"
   SubSer = FALSE
   MayCancel = FALSE
   SnapAtCommit = TRUE
   CollectLive = TRUE
-VIEW ViewNoHist
-INVARIANTS TypeOK CommitValid EffectOnce LoserCodes Converged NoCommitMissed
+INVARIANT EmitSched
 CHECK_DEADLOCK FALSE
